@@ -91,3 +91,17 @@ func barrierOpen()
 // so that the harness adds no happens-before edges of its own.
 func hLock()
 func hUnlock()
+
+// cutLoop arms a loop cut-point (one inductive step of a real loop): when execution first reaches
+// a loop header in a function whose name ends in fn, every loop-carried integer/boolean variable
+// gets a fresh nondeterministic value and pre() runs (havoc heap state, assume the invariant);
+// after one iteration, on the back edge, post() runs (assert invariant and variant) and the
+// path ends. loopVar* read the loop-carried variables by source name. No-ops natively.
+func cutLoop(fn string, pre func(), post func())
+func loopVarInt(name string) int
+func loopVarU64(name string) uint64
+func loopVarI64(name string) int64
+
+// cutActive reports whether cutLoop takes effect (symbolic exploration under gosym); false
+// natively and in the executor's concrete replay mode, where loops run from their real start.
+func cutActive() bool
